@@ -622,7 +622,7 @@ fn run_task(j: &JobData, w: u8, sim: Option<Arc<Sim>>, record_sites: bool) -> Ta
         Ok(Err(e)) => Outcome::ParseFail(e.0),
         Err(p) => {
             if p.is::<Crash>() {
-                crash_kind_hook = j.task.crash_at == Some(ctx.steps);
+                crash_kind_hook = j.task.crash_at.map(|k| ctx.steps >= k).unwrap_or(false) && j.task.emitter_crash_at.is_none();
                 Outcome::Crashed
             } else if p.is::<BudgetExceeded>() {
                 Outcome::Budget(ctx.steps)
